@@ -24,6 +24,11 @@ type Opts struct {
 	MaxOps int  `json:"max_ops"` // mutations inside one write transaction
 	Disk   bool `json:"disk"`    // use the real CreateDB/OpenDB path in a scratch directory
 	Dir    string
+	// Bulk > 0: the alphabet is reduced to transaction control, one key, Clear and two bulk
+	// operations that put Bulk keys / delete every second one of them inside the open write
+	// transaction (one operation each): transactions far larger than any internal buffer or
+	// batch threshold must still be atomic, isolated and readable from inside.
+	Bulk int `json:"bulk"`
 }
 
 type Model struct {
@@ -95,7 +100,11 @@ var (
 )
 
 // Alphabet of mutations.
-func alphabet() []string {
+func alphabet(o Opts) []string {
+	if o.Bulk > 0 {
+		return []string{"bw", "cm", "rb", "ro", "nb:x/s", fmt.Sprintf("bulk:x:%d", o.Bulk), fmt.Sprintf("bulkdel:x:%d", o.Bulk), fmt.Sprintf("bulk:x/s:%d", o.Bulk),
+			"put:x:61:1", "del:x:61", "clr:x", "Uerr:x:a:2"}
+	}
 	a := []string{"bw", "cm", "rb", "ro", "ct:xx", "nb:x/s", "db:x/s"}
 	for _, b := range buckets {
 		for _, k := range keys {
@@ -128,7 +137,11 @@ type sut struct {
 }
 
 func (s *sut) fail(tag, f string, a ...interface{}) {
-	s.viol = append(s.viol, fmt.Sprintf(f, a...))
+	m := fmt.Sprintf(f, a...)
+	if len(m) > 1500 { // bulk passes: thousands of keys
+		m = m[:700] + fmt.Sprintf(" ...[%d bytes]... ", len(m)-1400) + m[len(m)-700:]
+	}
+	s.viol = append(s.viol, m)
 	s.tags[tag] = true
 }
 
@@ -278,7 +291,7 @@ func (s *sut) observe(tx mwdb.ReadTransaction, d *rdb, where string, iter bool) 
 			var got []string
 			for it.Next() {
 				got = append(got, string(it.Key())+"="+string(it.Value()))
-				if len(got) > 50 {
+				if len(got) > len(rbk.KV)+50 { // an iterator that never ends
 					break
 				}
 			}
@@ -453,6 +466,36 @@ func (s *sut) apply(op string, o Opts) (enabled bool, err error) {
 			s.fail("delete-bucket", "DeleteBucket(%q) error %v", p[1], err)
 		}
 		delete(parent.Subs, pp[1])
+	case "bulk", "bulkdel":
+		rbk := s.ovl.lookup(p[1])
+		if rbk == nil {
+			return false, nil
+		}
+		ib := implBucket(s.wtx, p[1])
+		if ib == nil {
+			s.fail("bucket-missing", "bucket %q exists in the transaction but cannot be opened", p[1])
+			return true, nil
+		}
+		n := 0
+		fmt.Sscan(p[2], &n)
+		for i := 0; i < n; i++ {
+			k := fmt.Sprintf("k%06d", i)
+			if p[0] == "bulk" {
+				v := fmt.Sprintf("v%d", i%7)
+				if err := ib.Put([]byte(k), []byte(v)); err != nil {
+					s.fail("put", "%s.Put(%q) (bulk, %d of %d) error %v", p[1], k, i, n, err)
+					return true, nil
+				}
+				rbk.KV[k] = v
+			} else if i%2 == 0 {
+				if err := ib.Delete([]byte(k)); err != nil {
+					s.fail("delete", "%s.Delete(%q) (bulk, %d of %d) error %v", p[1], k, i, n, err)
+					return true, nil
+				}
+				delete(rbk.KV, k)
+			}
+		}
+		s.dirty[p[1]] = true
 	case "put", "del", "clr":
 		rbk := s.ovl.lookup(p[1])
 		if rbk == nil {
@@ -599,7 +642,7 @@ func (m *Model) Run(hist []string) *proto.Result {
 	r.Outcome = hex.EncodeToString(h2[:8])
 	r.Quiescent = s.wtx == nil
 	// successors
-	for _, op := range alphabet() {
+	for _, op := range alphabet(m.O) {
 		if enabledOp(s, op, m.O) {
 			r.Succ = append(r.Succ, op)
 		}
